@@ -3,8 +3,13 @@
    removes the real loop issued (vstor Remove log, in order) and its fileRef map (read through the
    session's own fileRefCh) with the model's output and state; and replays on the VersionLayer model
    the operations the harness performed on the real version layer and compares the events it sent.
-   Depends on the two model files and on Gen/InstRefLoop only. *)
+   The janitor cases replay, on the model Store/Sweep.v, what the real Open did on a checker-owned
+   storage: which journals recoverJournal replayed, which Remove calls checkAndCleanFiles issued for the
+   listing it read, and the whole of Open (every Remove call in order, the listing afterwards, the
+   journal / manifest / next file numbers).
+   Depends on the model files and on Gen/InstRefLoop only. *)
 From GL Require Import Conc.RefLoop Conc.VersionLayer Gen.Consts Gen.InstRefLoop.
+From GL Require Store.Sweep.
 From Coq Require Import NArith List Bool.
 Import ListNotations.
 Open Scope N_scope.
@@ -30,7 +35,21 @@ Inductive c07case :=
 | KProto (evs : list event)
     (* an event sequence the REAL version layer (session.commit/setVersion, version.incref/releaseNB,
        recorded instead of consumed by the loop) sent: it must satisfy the protocol env_ok *)
-| KVL (disc : bool) (o : vopen) (ops : list vop) (obs : list event).
+| KVL (disc : bool) (o : vopen) (ops : list vop) (obs : list event)
+| KJan (tabs : list N) (man journal : N) (frozen : option N) (listing bad : list Sweep.fd) (res : jres)
+    (* one run of checkAndCleanFiles at Open: the tables of the version it pinned, s.manifestFd.Num,
+       db.journalFd.Num, db.frozenJournalFd, the listing its List(TypeAll) returned, the files whose Remove
+       failed, and what it did: the Remove calls in order and whether it ran to its end, or the missing
+       tables it reported *)
+| KSel (jn pj : N) (listing : list Sweep.fd) (replayed : list N)
+    (* recoverJournal: stJournalNum and stPrevJournalNum as session.recover left them, the listing, and the
+       journals it opened for replay, in order *)
+| KOpen (v : Sweep.view) (listing : list Sweep.fd) (fl : list N) (mbad : bool) (bad : list Sweep.fd)
+        (calls : list Sweep.fd) (ok : bool) (after : list Sweep.fd) (journal man nxt : N)
+    (* one whole Open on [listing] when session.recover computes v: tables flushed per replayed journal,
+       whether the removal of the old manifest by the first commit failed, other failing Remove calls; observed: every Remove call in order, whether Open succeeded, the listing
+       afterwards, and (on success) db.journalFd.Num, s.manifestFd.Num, s.stNextFileNum *)
+with jres := JR (calls : list Sweep.fd) (done : bool) | JM (ts : list N).
     (* one session of the REAL version layer: how it was opened (created, or recovered - the manifest
        summarised as one record listing the recovered version), the operations the harness performed
        on it (session.version / version.release by version id / session.commit with the record's
@@ -43,6 +62,23 @@ Inductive c07case :=
 (* short constructors for the case files *)
 Definition T (n a b : N) : tbl := {| t_num := n; t_min := a; t_max := b |}.
 Definition R (a : list (N * tbl)) (d : list (N * N)) : srec := {| r_added := a; r_deleted := d |}.
+Definition Fm (n : N) : Sweep.fd := (Sweep.FManifest, n).
+Definition Fj (n : N) : Sweep.fd := (Sweep.FJournal, n).
+Definition Ft (n : N) : Sweep.fd := (Sweep.FTable, n).
+Definition Fx (n : N) : Sweep.fd := (Sweep.FTemp, n).
+Definition VW (tabs : list N) (jn : N) (prev : option N) (nx man : N) : Sweep.view :=
+  {| Sweep.v_tabs := tabs; Sweep.v_jnum := jn; Sweep.v_prev := prev; Sweep.v_next := nx; Sweep.v_man := man |}.
+
+Fixpoint fds_eqb (a b : list Sweep.fd) : bool :=
+  match a, b with
+  | [], [] => true
+  | x :: a', y :: b' => Sweep.fd_eqb x y && fds_eqb a' b'
+  | _, _ => false
+  end.
+
+(* equal as sets (the listings carry no repetition) *)
+Definition fds_same (a b : list Sweep.fd) : bool :=
+  forallb (Sweep.fmem b) a && forallb (Sweep.fmem a) b.
 
 Definition event_eqb (a b : event) : bool :=
   match a, b with
@@ -103,6 +139,25 @@ Definition run_case (c : c07case) : bool :=
       end
       && Bool.eqb (vl_disciplined o ops) disc
       && (negb disc || env_ok (map (fun e => (e, [])) obs))
+  | KJan tabs man journal frozen listing bad res =>
+      let st := {| Sweep.js_tabs := tabs; Sweep.js_manifest := man; Sweep.js_journal := journal;
+                   Sweep.js_frozen := frozen |} in
+      match Sweep.janitor st listing, res with
+      | Sweep.JRemove rem, JR calls done =>
+          let '(c, _, k) := Sweep.rm_seq listing rem bad in fds_eqb c calls && Bool.eqb k done
+      | Sweep.JMissing ts, JM ts' => leqb (Sweep.nsort ts) (Sweep.nsort ts')
+      | _, _ => false
+      end
+  | KSel jn pj listing replayed => leqb (Sweep.rj_select jn pj listing) replayed
+  | KOpen v listing fl mbad bad calls ok after journal man nxt =>
+      let s := Sweep.open_db v fl mbad bad (Sweep.boot listing v true) in
+      fds_eqb (rev (map fst (Sweep.trace s))) calls
+      && Bool.eqb (Sweep.opened s) ok
+      && fds_same (Sweep.files s) after
+      && (negb ok
+          || ((Sweep.journal s =? journal)
+              && match Sweep.man s with Some m => m =? man | None => false end
+              && (Sweep.next s =? nxt)))
   end.
 
 Fixpoint mism_from {A} (f : A -> bool) (i : N) (l : list A) : list N :=
